@@ -25,12 +25,12 @@ from happysimulator.core.temporal import Instant  # noqa: E402
 
 from simkit.c09_families import FAMILIES  # noqa: E402
 from simkit.rng import seed_globals  # noqa: E402
-from simkit.world import InvalidScenario, Monitor, Violation, result, run_sim  # noqa: E402
+from simkit.world import InvalidScenario, Monitor, Violation, result, run_sim, seeded_uuid  # noqa: E402
 
 PROPERTY = "C09"
-RUNS = {"quick": 12_000, "thorough": 500_000}
-WALL = {"quick": 45, "thorough": 1500}
-BATCH = {"quick": 100, "thorough": 1000}
+RUNS = {"quick": 5_000, "thorough": 500_000}
+WALL = {"quick": 40, "thorough": 1500}
+BATCH = {"quick": 125, "thorough": 1000}
 SELFTEST_RUNS = 40
 RULE = (
     "each case is one primitive + 2-12 generated worker processes (<=6 acquire cycles each; for Bulkhead/ThreadPool "
@@ -152,8 +152,8 @@ def gen_resource(rng):
         for _ in range(rng.randint(1, cycles_hi)):
             a = rng.choice(amounts)
             r = rng.random()
-            if r < 0.15:
-                b = rng.choice(amounts)
+            if r < 0.12 and a < cap:
+                b = rng.choice([x for x in amounts if a + x <= cap])  # no self-deadlock; cross-worker deadlock stays possible
                 ops += [{"op": "acq", "a": a, "slot": 0}] + _hold(rng, zero) + [{"op": "acq", "a": b, "slot": 1}] + _hold(rng, zero)
                 first = rng.choice([0, 1])
                 ops += [{"op": "rel", "slot": first}] + _hold(rng, zero) + [{"op": rng.choice(["rel", "rel2"]), "slot": 1 - first}]
@@ -286,7 +286,7 @@ def gen_condition(rng):
     workers = []
     for _ in range(nc):
         ops = []
-        for _ in range(rng.randint(1, 2)):
+        for _ in range(1 if zero else rng.randint(1, 2)):
             ops += [{"op": "consume", "max_waits": rng.randint(1, 3)}] + _hold(rng, zero)
         workers.append({"t": 0 if zero else rng.choice(T_CLUSTER), "ops": ops})
     for _ in range(np_):
@@ -301,7 +301,11 @@ def gen_condition(rng):
                 o["hold_ns"] = rng.choice(H_MIX)
             ops += [o] + _hold(rng, zero)
         workers.append({"t": 0 if zero else rng.choice(T_CLUSTER), "ops": ops})
-    if rng.random() < 0.5:
+    if zero:
+        # avoidance class for the busy-wait defect: every consumer is queued before the producers run (same instant),
+        # and the last producer notifies everybody, so no wait() outlives the instant
+        workers[-1]["ops"].append({"op": "produce", "n": nc, "all": True})
+    elif rng.random() < 0.5:
         rng.shuffle(workers)
     return {"family": "condition", "klass": f"condition/{klass}", "cfg": {}, "workers": workers}
 
@@ -457,6 +461,12 @@ def gen(rng, tier):
 # --------------------------------------------------------------------------
 
 def run(sc):
+    # Event ids come from uuid4 (one getrandom syscall per event); a seeded generator keeps ids reproducible and cheap
+    with seeded_uuid(int(sc.get("seed", 0))):
+        return _run(sc)
+
+
+def _run(sc):
     fam_name = sc.get("family")
     if fam_name not in FAMILIES or "cfg" not in sc or not isinstance(sc.get("workers"), list):
         raise InvalidScenario("family/cfg/workers")
